@@ -3,6 +3,7 @@
 //!   replay <cases.ndjson> <mismatches.ndjson>     cases carry "exp"; compares exp ⊑ res
 //!   gen    <family> <seed> <n> <events.ndjson>
 mod abi_ev;
+mod abiref_vals;
 mod alloc;
 mod elffile;
 mod exec;
